@@ -27,6 +27,10 @@ var table = map[string]func(*core.Ctx){
 	"C01": props.C01,
 	"C02": props.C02,
 	"C03": props.C03,
+	"C05": props.C05,
+	"C06": props.C06,
+	"C12": props.C12,
+	"C10": props.C10,
 }
 
 func main() {
